@@ -26,7 +26,7 @@ VER_ATTRS = [S('1.0.0'), S('1.9.0'), S('1.10.0'), S('2.0.0'), S('1.0.0-beta'), S
              S('18446744073709551616.0.0'), S('1.0.0-a_b'), S('1..0'), S(' 1.0.0'), S('1.0.0-rc.1'), S('1.0.0-rc.1.1'), S('0.0.0')]
 STRINGER_ATTRS = [('str', b'abc'), ('str', b'ABC'), ('str', b'1.0.0'), ('str', b''), ('strptr', b'abc'), ('strpanic',), ('strnilptr',), ('strselfpanic',),
                   ('jnum', b'12'), ('jnum', b'2.25'), ('jnum', b'1'), ('jnum', b'abc')]
-MISC_ATTRS = [('nil',), ('b', True), ('b', False), ('m', []), ('m', [(b'a', I(1))]), ('nilmap',)] + [('o', t) for t in list(range(21)) + [22, 23, 24, 25, 26, 27]]
+MISC_ATTRS = [('nil',), ('b', True), ('b', False), ('m', []), ('m', [(b'a', I(1))]), ('nilmap',)] + [('o', t) for t in list(range(21)) + [22, 23, 24, 25, 26, 27, 29, 30, 31, 32]]
 ABSENT = ('absent',)   # pseudo value: key not in the object
 
 ALL_ATTRS = [ABSENT] + MISC_ATTRS + INT_ATTRS + FLOAT_ATTRS + STR_ATTRS + VER_ATTRS + STRINGER_ATTRS
